@@ -522,12 +522,12 @@ func (r *runner) c08() error {
 		// keyper checks in only after the eon has started
 		kind string
 	}
-	setups := []setup{{3, 2, 1, ""}, {3, 2, 1, "byz"}, {3, 2, 1, "late"}}
+	setups := []setup{{3, 2, 1, ""}, {3, 2, 1, "byz"}, {3, 2, 1, "late"}, {3, 2, 1, "retry"}}
 	if r.cfg.Tier == "thorough" {
 		setups = append(setups, setup{3, 2, 0, ""}, setup{4, 3, 2, ""}, setup{4, 3, 2, "byz"}, setup{3, 2, 0, "late"})
 	}
 	if r.search {
-		setups = setups[:3]
+		setups = setups[:4]
 	}
 	for _, su := range setups {
 		if r.stop {
@@ -541,12 +541,27 @@ func (r *runner) c08() error {
 			s.Eval[su.observed] = dkgrig.EvalWrong
 			s.Accuse[su.observed] = true
 			base.Byzantine = map[int]dkgrig.Strategy{other: s}
+		case "retry":
+			// the first key generation fails (the other keypers withhold their commitments) and shuttermint starts
+			// a second one for the same keyper config, in which everybody is honest: the observed keyper is killed
+			// during the second one
+			base.Byzantine = map[int]dkgrig.Strategy{}
+			for i := 0; i < su.n; i++ {
+				if i != su.observed {
+					s := dkgrig.HonestStrategy(su.n)
+					s.Commit = dkgrig.CommitOmit
+					s.OnlyFirstEon = true
+					base.Byzantine[i] = s
+				}
+			}
+			base.Retry = true
+			base.MaxBlocks = 6 + 6*8 + 60
 		case "late":
 			// long phases: a restart costs the keyper a few blocks, which must not push a message out of its phase
 			base.HoldCheckIn = map[int]int64{other: 9}
 			base.PhaseLength = 16
 		}
-		r.res.Count("setup:" + map[string]string{"": "all-honest", "byz": "byzantine-peer", "late": "late-check-in"}[su.kind])
+		r.res.Count("setup:" + map[string]string{"": "all-honest", "byz": "byzantine-peer", "late": "late-check-in", "retry": "second-key-generation"}[su.kind])
 		total, ref, err := dkgrig.CountRoundTrips(base)
 		if err != nil {
 			return fmt.Errorf("crash-free run: %w", err)
